@@ -1,5 +1,5 @@
 \* prints every behaviour of 4 operations as JSON (BEH lines) and the rare conditions found (WIT lines)
-CONSTANTS NVar = 3  UVars = {}  BVars = {"c"}  NObj = 2  Hist = TRUE  Depth = 4
+CONSTANTS NVar = 3  UVars = {}  BVars = {"c"}  NObj = 2  MKind = "none"  Hist = TRUE  Depth = 4
           Dev = {"shared-self-copy-assign-sole-owner"}
 INIT Init
 NEXT Next
